@@ -64,6 +64,7 @@ type StreamInfo struct {
 	Reads          int    `json:"reads"`
 	ZeroReads      int    `json:"zero_reads"`
 	DataWithEOF    bool   `json:"data_with_eof"`
+	ErrWithData    bool   `json:"err_with_data,omitempty"`
 	EOFDelivered   bool   `json:"eof_delivered"`
 	ErrDelivered   bool   `json:"err_delivered"`
 	CancelObserved bool   `json:"cancel_observed"`
@@ -500,16 +501,17 @@ type SimStream struct {
 	rng    *Rng
 	mode   string
 
-	off        int
-	stop       int    // offset at which the stream stops (cut / read error / end)
-	stopKind   string // "" end of data | cut | read_error
-	slowAt     map[int]int
-	eof        bool
-	failed     bool
-	closed     bool
-	zeroStreak int
-	eofErr     error // what the end of the stream is reported with
-	readErr    error // what a read_error fault returns
+	off         int
+	stop        int    // offset at which the stream stops (cut / read error / end)
+	stopKind    string // "" end of data | cut | read_error
+	slowAt      map[int]int
+	eof         bool
+	failed      bool
+	closed      bool
+	zeroStreak  int
+	errWithData bool  // read_error: deliver the error together with the last bytes before it
+	eofErr      error // what the end of the stream is reported with
+	readErr     error // what a read_error fault returns
 
 	Info StreamInfo
 }
@@ -603,6 +605,8 @@ func newSimStream(d *Daemon, id string, openIdx int, l Layout, follow bool, _ ma
 		s.readErr = context.DeadlineExceeded
 	case si.Kind == FaultReadError && si.ErrKind == "closed":
 		s.readErr = io.ErrClosedPipe
+	case si.Kind == FaultReadError && si.ErrKind == "with_data":
+		s.errWithData = true
 	}
 	if si.Kind == FaultCut {
 		s.Info.CutClass = si.Class
@@ -740,6 +744,14 @@ func (s *SimStream) Read(p []byte) (int, error) {
 	s.off += n
 	s.Info.Delivered = s.off
 	var err error
+	if s.off == s.stop && s.stopKind == FaultReadError && s.errWithData && n > 0 {
+		// the io.Reader contract allows the last bytes and the error in one call
+		s.failed = true
+		s.Info.ErrDelivered = true
+		s.Info.ErrWithData = true
+		d.FaultsFired[FaultReadError]++
+		err = s.readErr
+	}
 	if s.off == s.stop && s.stopKind != FaultReadError && !(s.follow && s.stopKind == "") {
 		withEOF := false
 		switch s.mode {
